@@ -88,3 +88,90 @@ def behaviours(chk, stage, n_per_worker, depth, opts=None, validate=True):
                                   {'kind': 'step', 'step': s})
             chk.stage_stats.setdefault(stage, {})['steps_judged_by_tlc'] = len(steps)
             chk.stage_stats[stage]['steps_accepted'] = len(acc)
+
+
+# ---- function layer (spec/TrashInfo, Dates, Glob, Indexes; FunTrace) -----------------------------
+
+def fun_laws(chk):
+    """the laws of the function layer over small alphabets (MC_Fun.tla), checked exhaustively by TLC"""
+    res = tlc.run_tlc('MC_Fun', workers=1, timeout=900)
+    chk.add_tlc('MC_Fun', res, constants='alphabet of 16 bytes, strings to length 3; replies over 8 symbols to length 4')
+    chk.notes.append('MC_Fun: one TLC state per law; each law quantifies over 4 369 byte strings / 4 681 replies x 4 list lengths / 1 365 names')
+
+
+def obs_class(o):
+    from harness import world
+    f = o['f']
+    if f == 'meaning':
+        try:
+            p, _ = world.parse_info(bytes(o['content']))
+        except (ValueError, TypeError):
+            p = None
+        rel = 'relative' if (p is not None and not p.startswith(b'/')) or o.get('orig_rel') else 'absolute'
+        return '%s:%s:%s:%s' % (f, o.get('reader'), o.get('kind', '-'), rel)
+    if f == 'format':
+        if o['content'] == [-1]:
+            try:
+                bytes(o['loc']).decode('utf-8')
+                return 'format:not-written:utf8-name'
+            except UnicodeDecodeError:
+                return 'format:not-written:non-utf8-name'
+        return 'format:malformed:' + ('relative' if o.get('relative') else 'absolute')
+    if f == 'denote':
+        return 'denote:' + ('rejected-by-tool' if o['restored'] == [-1] else 'accepted-by-tool')
+    if f == 'expired':
+        return 'expired:' + ('purged' if o['purged'] else 'kept')
+    if f == 'match':
+        return 'match:' + ('removed' if o['removed'] else 'kept') + (':' + o['note'] if o.get('note') in ('exact-path pattern', 'collateral') else '')
+    return f
+
+
+def show_obs(o):
+    d = dict(o)
+    for k in ('content', 'loc', 'path', 'pat', 'reply', 'base', 'dir'):
+        if k in d and isinstance(d[k], list) and d[k] != [-1]:
+            try:
+                d[k] = bytes(d[k]).decode('utf-8', 'backslashreplace')
+            except ValueError:
+                d[k] = ''.join(chr(c) for c in d[k]).encode('utf-8', 'backslashreplace').decode()
+    if 'paths' in d:
+        d['paths'] = [''.join(chr(c) for c in p).encode('utf-8', 'backslashreplace').decode() for p in d['paths']]
+    return d
+
+
+def fun_stage(chk, stage, kind, nseeds, kw=None):
+    """real commands run on generated data; TLC evaluates the TLA+ operators on the observed bytes (FunTrace)"""
+    from harness import funobs
+    base = chk.seed * 1000003
+    out = funobs.collect(kind, [base + i for i in range(nseeds)], kw)
+    obs = []
+    for st, o in out:
+        if st == 'error':
+            chk.machinery.append('%s: %s' % (stage, o[-1500:]))
+        else:
+            obs += o
+    if not obs:
+        chk.machinery.append('%s: no observation collected' % stage)
+        return
+    broken = [o for o in obs if o.get('f') == 'broken' or o.get('broken')]
+    for o in broken:
+        chk.violation('%s:broken:%s' % (stage, o.get('note', '')[:40]), o.get('note', ''), {'kind': 'observation', 'obs': show_obs(o)})
+    obs = [o for o in obs if not (o.get('f') == 'broken')]
+    vr, acc = tlc.validate_steps(obs, module='FunTrace', init='InitF', next_='NextF', constants={}, workers=8)
+    chk.add_tlc('funtrace:' + stage, vr, constants='observations=%d' % len(obs))
+    if not vr.ok:
+        return
+    n_rej = 0
+    for i, o in enumerate(obs):
+        chk.traces += 1
+        cls = obs_class(o)
+        chk.count(stage, 1, key=cls + '|' + str(hash(str(o.get('content') or o.get('pat') or o.get('reply') or o.get('loc')))),
+                  nontrivial=True)
+        if (i + 1) not in acc:
+            n_rej += 1
+            chk.violation('%s:%s' % (stage, cls),
+                          'TLC (FunTrace) rejects the observation %s' % str(show_obs(o))[:900],
+                          {'kind': 'observation', 'stage': stage, 'obs': o, 'shown': show_obs(o)})
+        elif len(chk.samples) < 6 and i % 97 == 0:
+            chk.sample({'stage': stage, 'observation': show_obs(o), 'verdict': 'accepted by TLC (FunTrace)'})
+    chk.stage_stats.setdefault(stage, {}).update({'observations': len(obs), 'rejected': n_rej})
